@@ -1,6 +1,6 @@
 use either::Either;
 use num_bigint::{BigInt, BigUint, ParseBigIntError};
-use num_integer::{div_ceil, div_floor};
+use num_integer::{div_ceil, div_floor, Integer};
 use num_rational::BigRational;
 use num_traits::{FromPrimitive, Inv, Num, One, Pow, Signed, ToPrimitive, Zero};
 use std::cmp::Ordering;
@@ -350,10 +350,10 @@ impl Rem for LazyBigint {
             (_, Self::Short(0)) => panic!("modulo by 0"),
             (Self::Short(0), _) => Self::zero(),
             (_, Self::Short(-1 | 1)) => Self::zero(),
-            (Self::Short(s1), Self::Short(s2)) => Self::Short(s1 % s2),
-            (Self::Long(b), Self::Short(s)) => Self::from(b % s),
-            (Self::Short(s), Self::Long(b)) => Self::from(s % b),
-            (Self::Long(b0), Self::Long(b1)) => Self::from(b0 % b1),
+            (Self::Short(s1), Self::Short(s2)) => Self::Short(s1.mod_floor(&s2)),
+            (Self::Long(b), Self::Short(s)) => Self::from(b.mod_floor(&BigInt::from(s))),
+            (Self::Short(s), Self::Long(b)) => Self::from(BigInt::from(s).mod_floor(&b)),
+            (Self::Long(b0), Self::Long(b1)) => Self::from(b0.mod_floor(&b1)),
         }
     }
 }
@@ -366,10 +366,14 @@ impl Rem for &LazyBigint {
             (_, LazyBigint::Short(0)) => panic!("modulo by 0"),
             (LazyBigint::Short(0), _) => LazyBigint::zero(),
             (_, LazyBigint::Short(-1 | 1)) => LazyBigint::zero(),
-            (LazyBigint::Short(s1), LazyBigint::Short(s2)) => LazyBigint::Short(s1 % s2),
-            (LazyBigint::Long(b), LazyBigint::Short(s)) => LazyBigint::from(b % s),
-            (LazyBigint::Short(s), LazyBigint::Long(b)) => LazyBigint::from(s % b),
-            (LazyBigint::Long(b0), LazyBigint::Long(b1)) => LazyBigint::from(b0 % b1),
+            (LazyBigint::Short(s1), LazyBigint::Short(s2)) => LazyBigint::Short(s1.mod_floor(s2)),
+            (LazyBigint::Long(b), LazyBigint::Short(s)) => {
+                LazyBigint::from(b.mod_floor(&BigInt::from(*s)))
+            }
+            (LazyBigint::Short(s), LazyBigint::Long(b)) => {
+                LazyBigint::from(BigInt::from(*s).mod_floor(b))
+            }
+            (LazyBigint::Long(b0), LazyBigint::Long(b1)) => LazyBigint::from(b0.mod_floor(b1)),
         }
     }
 }
